@@ -5,7 +5,7 @@ import ast
 import copy
 import typing as T
 
-from ..core import Undecided, Module, norm, short, attr_chain, call_method, call_name, walk_no_nested
+from ..core import Undecided, Module, norm, short, attr_chain, call_method, call_name, walk_no_nested, kwarg
 from ..report import Rule, RuleCtx
 from ..cfg import CFG
 from ..flow import Flow
@@ -38,7 +38,7 @@ EXPLANATION = (
     'object the user passed with add_build_def_file on every returning path (files created at setup time excepted, which the recorder ignores); R7 the '
     'configure_file depfile chain: rules naming the same target are merged (an entry is only created for a target not seen before) and every dependency '
     'returned for the output is recorded. '
-    'Does NOT decide: whether the depfile tokenizer (depfile.parse) and the transitive closure of get_all_dependencies return the right names; other readers of '
+    'R8 run_command(): a relative string argument is handed to add_build_def_file below the same directory (root chosen by the in-builddir flag, then the current subdir) RunProcess passes to Popen(cwd=...), for both values of the flag. Does NOT decide: how mtest interprets a suite string (split_suite_string splitting at the first colon only - string-value semantics of the runner, the serialised suites are unchanged); whether the exclude_files/exclude_directories strings recorded in the install plan are spelled the way Installer.do_copydir compares them (path normalisation of user strings - value-level); whether the depfile tokenizer (depfile.parse) and the transitive closure of get_all_dependencies return the right names; other readers of '
     'user files (fs.read, keyval, cmake, qt) beyond what R5 says about the recorder; equality of the two generated artefacts for a concrete project (run-time values); agreement of two *opaque* roots '
     '(install_dir vs install_dir_name objects) or a directory joined on one side in front of the common tail; uniqueness of the source-path keys of '
     'intro-install_plan/intro-installed (several install_data() of one file collapse - documented format); whether two path expressions name the same '
@@ -2944,6 +2944,131 @@ def r7(ctx: RuleCtx) -> None:
     ctx.floor('writes to the per-target table of the depfile', n_w, 1)
 
 
+# ---------------------------------------------------------------------------
+# R8 run_command(): a relative string argument is registered below the directory the command runs in
+
+IOBJ = 'mesonbuild/interpreter/interpreterobjects.py'
+
+
+def _expand_cond(fn: FuncNode, e: ast.AST, keep: T.Set[str], depth: int = 5) -> ast.AST:
+    """`e` with single-definition locals inlined; a local bound once in each arm of one if/else becomes a conditional expression."""
+    loc = Locals(fn)
+    pm = parents(fn)
+    ps = set(params(fn)) | keep
+
+    def assign_of(v: ast.AST) -> T.Optional[ast.AST]:
+        for st in ast.walk(fn):
+            if isinstance(st, (ast.Assign, ast.AnnAssign)) and getattr(st, 'value', None) is v:
+                return st
+        return None
+
+    def go(x: ast.AST, d: int) -> ast.AST:
+        class _E(ast.NodeTransformer):
+            def visit_Name(self, n: ast.Name) -> ast.AST:
+                if not isinstance(n.ctx, ast.Load) or n.id in ps or n.id not in loc.defs:
+                    return n
+                ds = loc.defs[n.id]
+                if d <= 0 or any(x_ is None for x_ in ds):
+                    raise Undecided(f'{fn.name}: `{n.id}` is not bound to plain expressions')
+                if len(ds) == 1:
+                    return go(copy.deepcopy(ds[0]), d - 1)
+                if len(ds) == 2:
+                    a, b = assign_of(ds[0]), assign_of(ds[1])
+                    par = pm.get(a) if a is not None else None
+                    if par is not None and isinstance(par, ast.If) and b is not None and pm.get(b) is par and (a in par.body) != (b in par.body) and (a in par.body or a in par.orelse) \
+                            and (b in par.body or b in par.orelse):
+                        t_, f_ = (ds[0], ds[1]) if a in par.body else (ds[1], ds[0])
+                        return ast.IfExp(test=go(copy.deepcopy(par.test), d - 1), body=go(copy.deepcopy(t_), d - 1), orelse=go(copy.deepcopy(f_), d - 1))
+                raise Undecided(f'{fn.name}: `{n.id}` has {len(ds)} definitions that are not the two arms of one if/else')
+        return _E().visit(x)
+    return go(copy.deepcopy(e), depth)
+
+
+def _pick_world(e: ast.AST, atom: str, w: bool) -> ast.AST:
+    """`e` with every conditional expression on `atom` (or its negation) replaced by the arm taken when atom == w."""
+    class _P(ast.NodeTransformer):
+        def visit_IfExp(self, n: ast.IfExp) -> ast.AST:
+            t, pol = n.test, True
+            while isinstance(t, ast.UnaryOp) and isinstance(t.op, ast.Not):
+                t, pol = t.operand, not pol
+            if norm(t) == atom:
+                return self.visit(n.body if pol == w else n.orelse)
+            return self.generic_visit(n)
+    return _P().visit(copy.deepcopy(e))
+
+
+def r8(ctx: RuleCtx) -> None:
+    imod = ctx.repo.module(INTERP)
+    omod = ctx.repo.module(IOBJ)
+    qn = 'Interpreter.run_command_impl'
+    fn = imod.func(qn)
+    init = omod.func('RunProcess.__init__')
+    rc = omod.func('RunProcess.run_command')
+    # the directory the process runs in, as a term over the parameters of RunProcess.run_command
+    popen = [c for c in ast.walk(rc) if isinstance(c, ast.Call) and call_method(c) == 'Popen' and kwarg(c, 'cwd') is not None]
+    if len(popen) != 1:
+        raise Undecided(f'RunProcess.run_command: {len(popen)} Popen(cwd=...) calls')
+    cwd = _expand_cond(rc, kwarg(popen[0], 'cwd'), set())
+    inner = [c for c in method_calls(init, 'run_command', nested=False) if recv(c) == 'self']
+    if len(inner) != 1:
+        raise Undecided('RunProcess.__init__: expected one self.run_command(...) call')
+    b1 = bind_args(inner[0], rc)
+    if any(not (isinstance(v, ast.Name) and v.id in params(init) + [a.arg for a in init.args.kwonlyargs]) for v in b1.values()):
+        raise Undecided('RunProcess.__init__ does not hand its parameters to run_command unchanged')
+    sites = [c for c in ast.walk(fn) if isinstance(c, ast.Call) and call_method(c) == 'RunProcess']
+    if len(sites) != 1:
+        raise Undecided(f'{qn}: {len(sites)} RunProcess(...) calls')
+    b0 = bind_args(sites[0], init)
+    pos = [a for a in init.args.posonlyargs + init.args.args if a.arg != 'self']
+    dflt = dict(zip([a.arg for a in pos][len(pos) - len(init.args.defaults):], init.args.defaults))
+    env0: T.Dict[str, ast.AST] = {}
+    for k, v in b1.items():
+        a0 = b0.get(v.id, dflt.get(v.id))  # type: ignore[attr-defined]
+        if a0 is None:
+            raise Undecided(f'{qn}: RunProcess(...) does not pass `{v.id}`')  # type: ignore[attr-defined]
+        env0[k] = a0
+    flag_p = [k for k in params(rc) if any(isinstance(t, ast.IfExp) and norm(t.test).lstrip('not ') == k for t in ast.walk(cwd))]
+    if len(flag_p) != 1:
+        raise Undecided(f'RunProcess.run_command: the working directory does not depend on exactly one flag ({flag_p})')
+    atom = norm(env0[flag_p[0]])
+    args_p = [k for k, v in b1.items() if k == params(rc)[1]]
+    arglist = norm(env0[args_p[0]]) if args_p else ''
+    loops = [l for l in ast.walk(fn) if isinstance(l, ast.For) and isinstance(l.target, ast.Name) and norm(l.iter) == arglist
+             and any(recv(c) == 'self' for c in method_calls(l, 'add_build_def_file'))]
+    if len(loops) != 1:
+        raise Undecided(f'{qn}: expected one loop over `{arglist}` that records build definition files, found {len(loops)}')
+    lv = loops[0].target.id  # type: ignore[attr-defined]
+    n = 0
+    for pth in enumerate_paths(loops[0].body):
+        env: T.Dict[str, ast.AST] = {}
+        for ev in pth.events:
+            if ev.kind != 'stmt':
+                continue
+            st = ev.node
+            for c in [c for c in ast.walk(st) if isinstance(c, ast.Call) and call_method(c) == 'add_build_def_file' and recv(c) == 'self' and len(c.args) == 1]:
+                x = _expand_cond(fn, _Sub(env).visit(copy.deepcopy(c.args[0])), {lv})
+                for w in (True, False):
+                    parts = _join_parts(_pick_world(x, atom, w))
+                    parts = [q for p_ in parts for q in _join_parts(p_)]
+                    if not (isinstance(parts[-1], ast.Name) and parts[-1].id == lv) or any(lv in {y.id for y in ast.walk(p_) if isinstance(y, ast.Name)} for p_ in parts[:-1]) \
+                            or any(isinstance(y, ast.IfExp) for p_ in parts for y in ast.walk(p_)):
+                        raise Undecided(f'{qn}: registered path `{short(c.args[0])}` is not os.path.join(<directory>, {lv})')
+                    want = _join_parts(_pick_world(_expand_cond(fn, _Sub(dict(env0)).visit(copy.deepcopy(cwd)), {lv}), atom, w))
+                    want = [q for p_ in want for q in _join_parts(p_)]
+                    if any(isinstance(y, ast.IfExp) for p_ in want for y in ast.walk(p_)):
+                        raise Undecided('RunProcess.run_command: working directory not understood')
+                    got_, want_ = [norm(p_) for p_ in parts[:-1]], [norm(p_) for p_ in want]
+                    n += 1
+                    ctx.require(got_ == want_, f'{qn}: with {atom}={w} a string argument is registered below {want_}, the directory the command runs in', imod, qn,
+                                f'add_build_def_file({short(c.args[0])}) when {atom}={w}',
+                                f'when {atom} is {w} the command runs in os.path.join({", ".join(want_)}) but a relative file argument is looked up in '
+                                f'os.path.join({", ".join(got_)}): add_build_def_file ignores paths that do not exist, so the file the command read is missing from '
+                                'intro-buildsystem_files.json and from the regeneration dependencies', c)
+            if isinstance(st, ast.Assign) and len(st.targets) == 1 and isinstance(st.targets[0], ast.Name):
+                env[st.targets[0].id] = _Sub(env).visit(copy.deepcopy(st.value))
+    ctx.floor('run_command file-argument registrations compared with the working directory', n, 2)
+
+
 RULES = [
     Rule('C15.R1a', 'tests/benchmarks: the pickled serialisation is the introspected one', r1a),
     Rule('C15.R1b', 'install plan/installed/targets: install.dat and the JSON share create_install_data()', r1b),
@@ -2963,6 +3088,7 @@ RULES = [
     Rule('C15.R5', 'add_build_def_file rules out the build dir before testing the source dir on every recording path', r5),
     Rule('C15.R6', 'a File handed to a configure-time compiler check is recorded as a build definition file on every returning path', r6),
     Rule('C15.R7', 'configure_file depfile: rules naming the same target are merged and every dependency is recorded', r7),
+    Rule('C15.R8', 'run_command: a relative file argument is registered below the directory the command runs in', r8),
     Rule('C15.R4', 'introspection generated only after backend.generate, same build/backend', r4),
 ]
 _ = (Flow, call_name, walk_no_nested, method_calls, const_strs, attrs_of, intro_table, BACKENDS, MTEST, MINSTALL, INTERP, IDEDOC)
